@@ -400,6 +400,8 @@ def c11(tier, rng, fam='C11'):
                 b.step('adv', ms=H + 1)
                 out.append(b.q().done())
     out += lost_reset(fam, nmax)
+    out += eager_caller_early_return(fam, tier)
+    out += ends_while_another_write_is_stuck(fam)
     # a peer that sends more than expected: several replies to one unary call, extra stream envelopes
     for extra in (1, 2, 3, 4):
         b = B(fam, 'raw server sends %d replies to one unary call' % (extra + 1), rawsrv=True, ser=True)
@@ -853,6 +855,7 @@ def c14(tier, rng, fam='C14'):
     out += late_messages(fam)
     out += unencodable_send(fam)
     out += lost_reset(fam, 3)
+    out += ends_while_another_write_is_stuck(fam)
     # a unary call given up (cancel / deadline) while its reply is still on its way - or never comes: nothing
     # stays registered for it, whether or not the reply turns up later
     for how in ('cancel', 'deadline'):
@@ -1370,5 +1373,76 @@ def cancel_in_send_between_reads(fam):
                 b.step('send', c=1, pay='late')
                 b.q()
                 b.step('ucall', c=2, pay='probe', hp=[ret(pay='fine')])
+                out.append(b.q().done())
+    return out
+
+
+def eager_caller_early_return(fam, tier='quick'):
+    """a caller that sends everything before it receives (the usual client-streaming program) against a handler that
+    returns after k of n messages WITH a response, over a transport without slack: the late messages are answered
+    with resets which nobody fetches while the caller is still sending"""
+    out = []
+    for cap in (1, 2):
+        for n in ((4, 8) if tier == 'quick' else (3, 4, 6, 8, 12)):
+            for k in (0, 1, n - 2):
+                b = B(fam, 'eager caller (cap=%d): cs handler answers and returns after %d of %d' % (cap, k, n), ser=True, cap=cap)
+                b.step('ucall', c=10, pay='o', hp=[])
+                b.step('sopen', c=1, kind='cs', hp=[dict(o='recv')] * k + [dict(o='send', pay='early'), ret(code=0)])
+                for i in range(n):
+                    b.step('send', c=1, pay='m%d' % i)
+                b.step('close', c=1)
+                b.q()
+                b.step('hop', c=10, h=ret(pay='p'))
+                b.step('ucall', c=99, pay='probe', to=H, hp=[ret(pay='pong')])
+                b.step('adv', ms=H + 1)
+                b.q()
+                b.step('recv', c=1, n=2)
+                out.append(b.q().done())
+    return out
+
+
+def ends_while_another_write_is_stuck(fam):
+    """one call's write is held by the transport (a stalled peer) while other calls on the connection end by deadline
+    or cancellation: they return, nothing stays registered for them - a blocked writer does not hold up callers that
+    have given up"""
+    out = []
+    for first in ('unary', 'send'):
+        for how in ('deadline', 'cancel'):
+            # (an established stream that ends while the transport is stuck holds its state lock for the 30 s its reset
+            # write may take: a mutex wait, which the virtual clock cannot pass - harness limit, DESIGN section 8)
+            for kind in ('unary', 'open'):
+                b = B(fam, 'a %s write is held by the transport while a %s ends by %s' % (first, kind, how), ser=True)
+                to = dict(to=200) if how == 'deadline' else {}
+                if first == 'send' or kind in ('send', 'recv'):
+                    pass
+                if first == 'send':
+                    b.step('sopen', c=1, kind='bidi', hp=[dict(o='echo')])
+                if kind in ('send', 'recv'):
+                    b.step('sopen', c=2, kind='bidi', hp=[dict(o='ctxwait'), ret(code=1, msg='gone')], **to)
+                b.q()
+                b.step('stuck', dir='c2s', on=True)
+                if first == 'unary':
+                    b.step('ucall', c=1, pay='held', hp=[ret(pay='late')])
+                else:
+                    b.step('send', c=1, pay='held')
+                if kind == 'unary':
+                    b.step('ucall', c=2, pay='q', hp=[ret(pay='p')], **to)
+                elif kind == 'open':
+                    b.step('sopen', c=2, kind='bidi', hp=[dict(o='echo')], **to)
+                elif kind == 'send':
+                    b.step('send', c=2, pay='x')
+                else:
+                    b.step('recv', c=2)
+                b.q()
+                if how == 'deadline':
+                    b.step('adv', ms=201)
+                else:
+                    b.step('cancel', c=2)
+                b.q()                                  # the call that gave up has returned although the transport is still stuck
+                b.step('stuck', dir='c2s', on=False)
+                b.q()
+                if first == 'send':
+                    b.step('recv', c=1).step('close', c=1).step('recv', c=1)
+                b.step('ucall', c=9, pay='probe', hp=[ret(pay='fine')])
                 out.append(b.q().done())
     return out
